@@ -1,7 +1,17 @@
 import TypifyModel.Proofs.C11
+import TypifyModel.Proofs.C11Findings
 open TypifyModel.C11
 #print axioms base_fromstr_eq_de
 #print axioms tryfrom_eq_fromstr
 #print axioms untagged_fromstr_eq_de
 #print axioms base_display_eq_ser
 #print axioms untagged_display_eq_ser
+open TypifyModel.C11N
+#print axioms nt_fromstr_eq_de
+#print axioms nt_display_eq_ser
+#print axioms ut_fromstr_eq_de
+#print axioms ut_display_eq_ser
+#print axioms native_formats_coherent_partial
+#print axioms datetime_fromstr_coherent
+#print axioms fallback_is_string
+#print axioms native_formats_coherent_full_false
